@@ -5,19 +5,33 @@ from common import *
 import runner
 
 ID = "C19"
-LEAN_MODULES = ["Properties.C19"]
+LEAN_MODULES = ["Properties.C19", "Properties.C19Doubles"]
 THEOREMS = ["EngineModel.Properties.C19." + t for t in [
+    # the regenerated code computes the hand model; the property on the hand model
     "gen_qn", "C19_gen_hi", "C19_gen_ov", "C19_hi_cover", "C19_hi_span", "C19_hi_minimal",
-    "C19_ov_size", "C19_ov_rounded", "C19_empty_iff", "C19_mono"]]
+    "C19_ov_size", "C19_ov_rounded", "C19_empty_iff", "C19_mono",
+    # the property on the regenerated functions applied to doubles (bit-exact int64 conversion)
+    "C19_rate_floor", "C19_hi_on_doubles", "C19_ov_on_doubles", "C19_hi_property", "C19_ov_property",
+    "C19_mono_property", "C19_ov_span_exact",
+    # outside the domain
+    "C19_nan_counterexample", "C19_huge_rate_counterexample", "C19_negative_rate_counterexample"]]
 ASSUMPTIONS = [
-    "doubles enter the theorems only through FloatOps (toI64 = truncation, ofI64/ofU64 = conversion, div); "
-    "the driver instantiates them with hardware Float and the tie compares results bit for bit",
-    "domain of the theorems about the generated code: sample_count <= 2^62, 0 <= trunc(rate) <= 2^31",
+    "static_cast<int64_t>(double) is defined bit for bit (TracksV1.Fl.toI64) and proved to be the floor of the exact "
+    "value for finite non-negative doubles below 2^63 (Proofs/F64Val.lean); the other double operations "
+    "(int64/uint64 -> double, division) stay an uninterpreted parameter in the theorems and are hardware doubles in "
+    "the driver; the tie compares C++ vs both instances (hardware toInt64, bit-exact toI64) bit for bit",
+    "1024 * samples_per_entry = rounded sample count is proved under the explicit exactness hypothesis SpanExact "
+    "(converting an integer <= 2^53 and dividing by 1024 lose nothing - true of IEEE-754, sampled on every run: "
+    "histogram exact_span)",
+    "domain: sample_count <= 2^62, rate a finite double with sign bit clear and value <= 2^31 (RateOk); -0.0, NaN, "
+    "infinities, rates >= 2^63 and negative rates are outside (tie only; the three registered _counterexample "
+    "theorems say what the code does there - the conversion of NaN / >= 2^63 is undefined behaviour in the public "
+    "functions calculate_*_waveform_extents, see design/C19.md)",
 ]
 MANIFEST = dict(
-    text='Theorems over the naturals for all sample counts and rates: minimal cover with less than one entry of slack (C19_hi_cover, C19_hi_minimal), overview size 1024 spanning the count rounded down to the quantisation number (C19_ov_size, C19_ov_rounded), emptiness iff no audio or rate < 210 (C19_empty_iff), monotonicity (C19_mono); C19_gen_hi / C19_gen_ov re-prove on every run that the Lean code regenerated from track_utils.hpp computes this model without undefined behaviour for n <= 2^62, 0 <= rate <= 2^31.',
-    note='Trusted: Lean kernel; translator tools/tr_trackutils.py (clang typed AST -> Lean, every implicit conversion explicit); doubles only through FloatOps (tie compares C++ vs hardware Float bit for bit).',
-    technique='Lean 4 theorems (omega / Nat.div lemmas) over a model regenerated from source + bit-exact differential run',
+    text='Theorems on the functions regenerated from track_utils.hpp on every run, applied to doubles through the bit-exact int64 conversion: for every sample count <= 2^62 and every finite rate in [0, 2^31] the calls are defined, the high-resolution waveform has the minimum number of entries of span q = (floor(rate)/210)*2 covering the track with less than one entry of slack (C19_hi_property), the overview has exactly 1024 entries whose span is rounded/1024 with rounded = the count rounded down to q (C19_ov_property; 1024*span = rounded exactly under SpanExact, C19_ov_span_exact), both are empty iff n = 0 or rate < 210, sizes are monotone (C19_mono_property); C19_rate_floor proves the cast is the floor; underneath: C19_gen_hi / C19_gen_ov (regenerated code = hand model, no undefined behaviour in the domain) and the arithmetic theorems over the naturals; three registered out-of-domain witnesses.',
+    note='Trusted: Lean kernel (+ Mathlib floor lemmas on Q); translator tools/tr_trackutils.py (clang typed AST -> Lean, every implicit conversion explicit); double arithmetic other than the int64 conversion is uninterpreted (SpanExact is an explicit hypothesis, sampled by the tie).',
+    technique='Lean 4 theorems (omega / Nat.div lemmas, bit-level float conversion) over a model regenerated from source + bit-exact differential run',
     ref='6/C19')
 TRUSTED_EXTRA = ["tools/tr_trackutils.py (clang-14 JSON AST -> Lean translator for track_utils.hpp)"]
 
@@ -123,8 +137,9 @@ def tie(ctx):
     rng = random.Random(ctx.seed * 7919 + 19)
     pts = gen_points(rng, ctx.tier)
     # a few out-of-domain points for the tie only (not the oracle)
-    ood = [(5, -500.0), (10 ** 6, -44100.0), (7, float("nan")), (7, 1e300), (7, -1e300), (2 ** 64 - 1, 44100.0),
-           (2 ** 63, 48000.0)]
+    ood = [(5, -500.0), (10 ** 6, -44100.0), (1000, -44100.0), (7, float("nan")), (7, float("inf")), (7, 1e300),
+           (7, -1e300), (7, 9223372036854775808.0), (7, 9223372036854774784.0), (7, -0.0), (1000, -0.0),
+           (2 ** 64 - 1, 44100.0), (2 ** 63, 48000.0)]
     lines = []
     for (n, r) in pts + ood:
         lines.append("wf.hi %d %s" % (n, dbits(r)))
@@ -133,8 +148,26 @@ def tie(ctx):
     hres = runner.run_harness(scripts, stateless=True)
     hout = [o for (outs, _) in hres for o in outs]
     mout = [o for outs in runner.run_model(scripts) for o in outs]
+    # the same calls through the instance the theorems are about: bit-exact static_cast<int64_t>
+    bscripts = [[l.replace("wf.hi ", "wf.hib ", 1).replace("wf.ov ", "wf.ovb ", 1) for l in sc] for sc in scripts]
+    bout = [o for outs in runner.run_model(bscripts) for o in outs]
+    # the bit-level value / conversion functions against Python's exact arithmetic
+    vals = sorted({dbits(r) for (_, r) in pts[:4000] + ood})
+    vout = [o for outs in runner.run_model(runner.shard(["f64.val " + v for v in vals], NCPU)) for o in outs]
     divergences, violations = [], []
-    hist = {"empty": 0, "nonempty": 0, "ood": 0, "size_eq_1": 0, "exact_multiple": 0}
+    hist = {"empty": 0, "nonempty": 0, "ood": 0, "size_eq_1": 0, "exact_multiple": 0, "exact_span": 0,
+            "span_rounded_above_2_53": 0, "f64_val_checked": 0}
+    for v, o in zip(vals, vout):
+        x = bitsd(v)
+        if x != x or x in (float("inf"), float("-inf")):
+            exp = "ok nonfinite none"
+        else:
+            fr = Fraction(x)
+            t = int(x)
+            exp = "ok %d/%d %s" % (fr.numerator, fr.denominator, t if -2 ** 63 <= t < 2 ** 63 else "none")
+        hist["f64_val_checked"] += 1
+        if o != exp:
+            divergences.append({"input": "f64.val " + v, "impl": "python exact: " + exp, "model": o})
     seen = set()
     answers = {}
     for i, (n, r) in enumerate(pts + ood):
@@ -143,6 +176,9 @@ def tie(ctx):
         in_domain = i < len(pts)
         if h_hi != m_hi or h_ov != m_ov:
             divergences.append({"input": lines[2 * i], "impl": [h_hi, h_ov], "model": [m_hi, m_ov]})
+        if h_hi != bout[2 * i] or h_ov != bout[2 * i + 1]:
+            divergences.append({"input": lines[2 * i].replace("wf.hi", "wf.hib"), "impl": [h_hi, h_ov],
+                                "model": [bout[2 * i], bout[2 * i + 1]]})
         if not in_domain:
             hist["ood"] += 1
             continue
@@ -167,6 +203,21 @@ def tie(ctx):
                 hist["size_eq_1"] += 1
             if qn(int(r)) and n % qn(int(r)) == 0:
                 hist["exact_multiple"] += 1
+            # SpanExact sampled: 1024 * spe is the rounded count itself when it is <= 2^53
+            q_ = qn(int(r))
+            rounded = (n // q_) * q_ if q_ else None
+            if rounded is None:
+                pass        # non-empty answer for an unquantisable rate: already reported by oracle_point
+            elif rounded <= 2 ** 53:
+                if Fraction(ov[1]) * 1024 == rounded:
+                    hist["exact_span"] += 1
+                else:
+                    violations.append({"tag": "oracle-span", "signature": None,
+                                       "header": {"kind": "input",
+                                                  "what": "1024 * samples_per_entry differs from the rounded sample count"},
+                                       "body": [lines[2 * i + 1], "impl: " + h_ov, "spec: rounded=%d" % rounded]})
+            else:
+                hist["span_rounded_above_2_53"] += 1
             seen.add((n, int(r)))
     # monotonicity on the implementation's answers
     mono_checked = 0
